@@ -5,5 +5,6 @@ CONSTANTS
   Fix = {}
   ReaderAtomic = TRUE
   GenLen = 14
+  HoldUntil = 0
 INVARIANT Emit
 CHECK_DEADLOCK FALSE
